@@ -495,7 +495,7 @@ func main() {
 		}
 	}
 	g := &gen{r: e.Rng}
-	n := e.N(260, 6000)
+	n := e.N(260, 2000)
 	if e.Search && !e.Thorough() {
 		n = 4 * 260 // search after a broken proof/tie: a few times the quick budget per seed
 	}
